@@ -15,6 +15,7 @@ let dc = { ea_comma_min = cnum h "ea_comma_min"; ea_sep = cbytes h "ea_sep"; ea_
            rp_start_is_getpid = cbool h "rp_start_is_getpid"; dt_default_fmt = cbytes h "dt_default_fmt"; dt_buf = cnum h "dt_buf";
            cfg_version = cbytes h "cfg_version"; cfg_configure_command = cbytes h "cfg_configure_command"; path_max = cnum h "path_max";
            login_name_max = cnum h "login_name_max" }
+let ts_wide = (try cbool h "ts_wide" with _ -> false)
 let cc = { sep = cbytes h "cmdline_sep"; unknown = cbytes h "cmdline_unknown" }
 
 let z_of_int i = if i = 0 then Z0 else if i > 0 then Zpos (pos_of_int i) else Zneg (pos_of_int (-i))
@@ -42,7 +43,7 @@ let handle = function
              d_owners = omap own; d_login = unhex_opt login; d_environ = unhexlist_opt env; d_passwd = zmap pw; d_group = zmap gr;
              d_cgroup = unhex_opt cg; d_status = zmap status; d_strftime = bmap sf; d_file = unhex_opt file; d_argv = unhexlist_opt argv };
     "ok"
-  | ["ev"; name; arg; sz] -> show (run_eval dc cc (of_str name) !cur (unhex arg) (n_of_string sz))
+  | ["ev"; name; arg; sz] -> show (run_eval dc ts_wide cc (of_str name) !cur (unhex arg) (n_of_string sz))
   | ["doc"; name; arg; sz] -> show (run_doc dc (of_str name) !cur (unhex arg) (n_of_string sz))
   | ["cgsel"; content; arg] -> hex_opt (cgroup_select (unhex content) (unhex arg)) ^ "\t" ^ hex_opt (cgroup_spec (unhex content) (unhex arg))
   | ["envall"; env; sz] ->
